@@ -467,6 +467,15 @@ func RunSoakAttribution(e *Env) {
 		R.Sample(map[string]any{"soak": o, "calls": st.calls.Load(), "qf_invocations": st.qfInv.Load()})
 		s.cl.Close()
 	}
+	for rep := 0; rep < e.Pick(6, 60); rep++ {
+		if e.Of > 1 && rep%e.Of != e.Batch {
+			continue
+		}
+		if R.NumViolations() > 5 {
+			break
+		}
+		runSoakAliases(e, rep)
+	}
 }
 
 // RunResidue is the engine behind C18.
